@@ -5,6 +5,7 @@ The mathematical description is the harness's own data; nothing is read back fro
 so the specification's tables and the engine's tables are derived independently from the same model.
 """
 import json
+import random
 from fractions import Fraction as Fr
 
 LABELS = ["A", "B", "C"]
@@ -90,9 +91,19 @@ class Model:
             return {k: float(x) for k, x in v.items()}
         return float(v)
 
-    @staticmethod
-    def side(d):
-        return " + ".join(("%d %s" % (n, l)) if n != 1 else l for l, n in d.items())
+    eq_style = "coef"      # how a side is written: "2 A + B", "A + A + B" (repeats) or "A + B + 1 A" (split, any order)
+
+    def side(self, d):
+        """The same side of a reaction in one of the notations the documentation allows (repeated species are summed)."""
+        if self.eq_style == "repeat":
+            terms = [l for l, n in d.items() for _ in range(n)]
+        elif self.eq_style == "split":
+            first = [("%d %s" % (n - 1, l)) if n > 2 else l for l, n in d.items() if n >= 2]
+            rest = [l if n == 1 else ("1 %s" % l) for l, n in d.items()]
+            terms = rest[::-1] + first
+        else:
+            terms = [("%d %s" % (n, l)) if n != 1 else l for l, n in d.items()]
+        return " + ".join(terms)
 
     def strengths_dict(self, explicit_state=True):
         sp = []
@@ -219,4 +230,5 @@ def random_model(rng, max_species=3, max_reactions=2, max_cells=4, max_order=3, 
         m.state[rng.randrange(len(labels))][rng.randrange(nc)] = rng.choice([100, 137, 250])
     if rng.random() < 0.3:      # explicit per-entry chemostat map (any subset of entries)
         m.chem = [[int(rng.random() < 0.3) for _ in range(nc)] for _ in labels]
+    m.eq_style = random.Random(len(reactions) * 7919 + nc * 31 + len(labels)).choice(["coef", "repeat", "split", "coef"])
     return m
